@@ -92,7 +92,10 @@ LEVEL_NOTE = ("Theorems are about exact real arithmetic; libm and rounding are n
               "(adjusted = true, zero residuals, nothing removed, for every algorithm) is explored, not proved; "
               "tolerances used by the oracle: 1e-6 m when exact approximate coordinates are supplied, 1e-5 m otherwise "
               "(the program stops iterating at 0.0005 mm positional misclosure), 1e-4 m (xy) / 3e-4 m (z) when from_dh/to_dh "
-              "are present (the program refines zenith-angle reductions only to 0.1 cc); tol-abs is raised with the "
+              "are present (the program refines zenith-angle reductions only to 0.1 cc), and for a slope distance / zenith angle with "
+              "from_dh/to_dh a residual up to 1.5*dh*d/s, d = the last coordinate correction the stopping test lets pass "
+              "(refine_obsdh_reductions computes the reduction from the approximate coordinates of the iteration; counted as "
+              "e2e_stale_dh_reduction_tolerated); tol-abs is raised with the "
               "perturbation so that the documented gross-error gate is not what is being tested.")
 TECHNIQUE = ("Lean 4 proof (closed-form geometry over R, list induction) + differential correspondence at Float "
              "+ end-to-end property search on gama-local with shrinking")
@@ -433,9 +436,47 @@ def check(net, rc, xml, txt, log, variant, heights):
             m = re.match(r"(\S+)\.([xyz]) off by (\S+)", b)
             if m and abs(float(m.group(3))) <= (tol["tol_z"] if m.group(2) == "z" else 1e-4):
                 continue
+            if stale_dh_reduction(net, b, variant):
+                STALE_DH[0] += 1
+                continue
             out.append(b)
         bad = out
     return bad
+
+
+STALE_DH = [0]
+
+
+def stale_dh_reduction(net, b, variant):
+    """refine_obsdh_reductions computes the from_dh / to_dh reduction of a slope distance / zenith angle from the
+    APPROXIMATE coordinates of the current iteration (IS->PD); when neither it nor the stopping test asks for another
+    iteration the reduction stays stale by the last coordinate correction d: by dh*d/s for a slope distance of horizontal
+    length s (dh*d/s^2 rad for a zenith angle).  d is at most the perturbation of the variant and, whatever the variant,
+    at most the correction the stopping test lets pass, sqrt(2 * 0.0005 mm * s).  A residual of such an observation
+    within 1.5 x that bound is the program's documented approximation, not a loss of the network (reported to the lead
+    as an observation: reproducer corpus/C06/pending/stale-dh-reduction.gkf)."""
+    m = re.match(r"residual (s-distance|slope-distance|z-angle|zenith-angle) (\S+)->(\S+) (\S+) (m|gon)", b)
+    if not m:
+        return False
+    f, t, r, unit = m.group(2), m.group(3), abs(float(m.group(4))), m.group(5)
+    pts = net["points"]
+    if f not in pts or t not in pts:
+        return False
+    sh = math.hypot(pts[f]["x"] - pts[t]["x"], pts[f]["y"] - pts[t]["y"])
+    dh = 0.0
+    for c in net["obs"]:
+        if c.get("kind") == "obs" and c.get("from") == f:
+            for it in c["items"]:
+                if it.get("to") == t and it["t"] in ("s-distance", "z-angle"):
+                    dh = max(dh, abs(it.get("from_dh", 0.0)), abs(it.get("to_dh", 0.0)))
+    if dh == 0.0 or sh < 1.0:
+        return False
+    mm = re.match(r"perturbed([0-9.e-]+)$", variant)
+    d = math.sqrt(2 * 5e-7 * sh)
+    if mm:
+        d = max(min(d, float(mm.group(1)) * math.sqrt(3)), min(d, 1e-3))
+    bound = 1.5 * dh * d / sh
+    return r <= (bound if unit == "m" else bound / sh * 200.0 / math.pi)
 
 
 def coord_stdev(txt):
@@ -1028,7 +1069,7 @@ def acord2_stream(ctx, corr, exe, drv, n):
         cases.append([line]); meta.append(m)
     impl, crashes = run_cases(exe, cases)
     model, _ = run_cases(drv, cases)
-    failed = 0
+    failed = failed_known = 0
     for i, c in enumerate(cases):
         m = meta[i]
         if i in crashes:
@@ -1087,8 +1128,12 @@ def acord2_stream(ctx, corr, exe, drv, n):
                     corr.fail("Acord2::execute leaves undetermined what its own strategies determine from consistent "
                               "observations: " + ", ".join(lost[:6]),
                               {"stream": "acord2", "ops": c, "truth": m["truth"], "finding": None}, "Acord2::execute")
-        if why and failed < 5:
-            failed += 1
+        if why and (failed_known if finding else failed) < 5:
+            # separate budgets: reproductions of the known finding must not hide a failure of another kind
+            if finding:
+                failed_known += 1
+            else:
+                failed += 1
             corr.fail("Acord2::execute publishes a coordinate that is not the true one: " + why,
                       {"stream": "acord2", "ops": c, "truth": m["truth"], "finding": finding},
                       "Acord2::execute" + (" / ApproximateCoordinates::solve_insertion" if finding == "C06-F21" else ""))
@@ -1224,7 +1269,9 @@ def correspond(ctx, corr):
                            "heights": m.get("heights", False), "truth_net": m["truth_net"], "step": m.get("step", ""),
                            "signature": signature(f.read_text(), bad, txt, m.get("variant", "supplied"), m["truth_net"])},
                           site=m.get("site", "gama-local"), detail=txt[:1500])
+        STALE_DH[0] = 0
         e2e(ctx, corr, gd, ctx.size(45, 400), wd)
+        corr.count("e2e_stale_dh_reduction_tolerated", STALE_DH[0])
     finally:
         shutil.rmtree(wd, ignore_errors=True)
     if corr.stats.get("net_testlin_decided_by_negative_misclosure", 0) < 5:
